@@ -5,68 +5,138 @@
 (*                                                                          *)
 (* Model of a cythonize build: M modules with a dependency relation (a      *)
 (* module reads its own source and the sources of its dependencies, never   *)
-(* another module's OUTPUT), a job list ordered by `order`, K worker        *)
-(* processes that take jobs from the list.  A job reads its inputs (one     *)
+(* another module's OUTPUT), a job list ordered by `order`, nw worker       *)
+(* PROCESSES that take jobs from the list.  A job reads its inputs (one     *)
 (* action per file, so that reads interleave with other jobs' writes),      *)
-(* computes F(inputs) and writes its output in two steps (truncate, write). *)
-(* The environment (hash seed, job order, number of workers) is a constant  *)
-(* no action reads: by construction every behaviour ends with               *)
-(* out[m] = F(src[m], src of deps) -- checked as an invariant over ALL      *)
-(* interleavings; the schedules (order, nthreads, seed) are published and   *)
-(* each is executed with the real cythonize; outputs must be byte-identical *)
-(* to the baseline schedule.                                                *)
+(* resolves the names derived from its declarations through the memo of ITS *)
+(* PROCESS (action Memo), and writes its output in two steps (truncate,     *)
+(* write).                                                                  *)
+(*                                                                          *)
+(* Process-wide compiler state.  Every worker process owns a memo (the      *)
+(* union of all module-level caches of the compiler: type identifiers,      *)
+(* cnames, specialisations, utility-code trees, dependency parses ...) that *)
+(* lives as long as the process and is read and written by every job the    *)
+(* process runs.  A declaration d of module m yields the derived value      *)
+(* Val(m, d): for a SCOPED declaration the value depends on the declaring   *)
+(* module (scope-mangled identifiers), for a global one only on d.  A memo  *)
+(* entry is found under Key(keymode, m, d).  The reference semantics is     *)
+(* keymode = "exact" (key = declaration + declaring module); the hazard     *)
+(* models "base" (key = declaration + base name of the module: modules with *)
+(* the same base name in different packages collide) and "decl" (key = the  *)
+(* declaration alone: every module with the same declaration collides) are  *)
+(* explored in the same run: they hold no invariant, TLC computes for every *)
+(* process history which outputs they would make stale, and these are the   *)
+(* histories the binding has to execute on the real compiler.               *)
+(*                                                                          *)
+(* The environment (hash seed, job order, number of workers) is never read  *)
+(* by an action.  Invariants (keymode "exact", ALL interleavings): a job's  *)
+(* names do not depend on the history of the memo it ran on                 *)
+(* (MemoHistoryIndependent), a memo key determines its value (MemoSound),   *)
+(* the final outputs are the fresh ones = what a job computes in a new      *)
+(* process with an empty memo (ScheduleIndependent).  Every final state is  *)
+(* published with its process histories (hist[w] = the jobs process w ran,  *)
+(* in order); each class is executed with the real compiler: one real       *)
+(* process per model process, compiling its jobs in the published order;    *)
+(* outputs must be byte-identical to the fresh ones.                        *)
 EXTENDS Naturals, Sequences, FiniteSets, TLC, Json
 
 CONSTANTS Mods,        \* set of module ids
           Deps,        \* [Mods -> SUBSET Mods]
-          Workers,     \* set of worker ids (nthreads)
+          Base,        \* [Mods -> STRING]: base name (last component of the qualified name)
+          Decls,       \* [Mods -> SUBSET declaration ids]: declarations whose derived names go through the memo
+          Scoped,      \* declaration ids whose derived value depends on the declaring module
+          NWorkers,    \* set of worker counts (nthreads) to explore
+          MaxW,        \* the largest of them
           Orders,      \* set of job orders (sequences over Mods) to explore
           Seeds,       \* hash seeds (environment only)
+          KeyModes,    \* subset of {"exact", "base", "decl"}
           Dump
 
-VARIABLES order, seed, queue, job, got, out, pc
-vars == <<order, seed, queue, job, got, out, pc>>
+VARIABLES order, seed, nw, keymode, queue, job, got, names, memo, hist, out, pc
+vars == <<order, seed, nw, keymode, queue, job, got, names, memo, hist, out, pc>>
+env == <<order, seed, nw, keymode>>
 
-Fresh(m) == [src |-> m, deps |-> Deps[m]]       \* abstract F: a function of the module's inputs only
-Empty == [src |-> "", deps |-> {}]
-Partial == [src |-> "partial", deps |-> {}]
+Workers == 1..MaxW
+NoNames == [d \in {} |-> <<>>]
 
-Init == /\ order \in Orders /\ seed \in Seeds
+(* the value derived from declaration d of module m, and the memo key it is stored under *)
+Val(m, d) == IF d \in Scoped THEN <<d, m>> ELSE <<d, "*">>
+Key(km, m, d) == IF d \notin Scoped THEN <<d, "*">>
+                 ELSE IF km = "exact" THEN <<d, m>>
+                 ELSE IF km = "base" THEN <<d, Base[m]>>
+                 ELSE <<d, "*">>
+
+FreshNames(m) == [d \in Decls[m] |-> Val(m, d)]
+Fresh(m) == [src |-> m, deps |-> Deps[m], names |-> FreshNames(m)]   \* F: a function of the module's inputs only
+Empty == [src |-> "", deps |-> {}, names |-> NoNames]
+Partial == [src |-> "partial", deps |-> {}, names |-> NoNames]
+
+Init == /\ order \in Orders /\ seed \in Seeds /\ nw \in NWorkers /\ keymode \in KeyModes
         /\ queue = order
         /\ job = [w \in Workers |-> ""]
         /\ got = [w \in Workers |-> {}]            \* input files read so far by the running job
+        /\ names = [w \in Workers |-> NoNames]     \* derived names of the running job
+        /\ memo = [w \in Workers |-> {}]           \* process-wide memo: set of [k |-> key, v |-> value]
+        /\ hist = [w \in Workers |-> <<>>]         \* jobs run by the process so far
         /\ out = [m \in Mods |-> Empty]
         /\ pc = [w \in Workers |-> "idle"]
 
-Take(w) == /\ pc[w] = "idle" /\ queue # <<>>
+Take(w) == /\ w <= nw /\ pc[w] = "idle" /\ queue # <<>>
            /\ job' = [job EXCEPT ![w] = Head(queue)] /\ queue' = Tail(queue)
-           /\ got' = [got EXCEPT ![w] = {}] /\ pc' = [pc EXCEPT ![w] = "read"]
-           /\ UNCHANGED <<order, seed, out>>
+           /\ hist' = [hist EXCEPT ![w] = Append(@, Head(queue))]
+           /\ got' = [got EXCEPT ![w] = {}] /\ names' = [names EXCEPT ![w] = NoNames]
+           /\ pc' = [pc EXCEPT ![w] = "read"]
+           /\ UNCHANGED <<env, out, memo>>
 Inputs(m) == {m} \cup Deps[m]
 ReadOne(w) == /\ pc[w] = "read"
               /\ \E f \in Inputs(job[w]) \ got[w] : got' = [got EXCEPT ![w] = @ \cup {f}]
-              /\ pc' = [pc EXCEPT ![w] = IF got'[w] = Inputs(job[w]) THEN "trunc" ELSE "read"]
-              /\ UNCHANGED <<order, seed, queue, job, out>>
+              /\ pc' = [pc EXCEPT ![w] = IF got'[w] = Inputs(job[w]) THEN "memo" ELSE "read"]
+              /\ UNCHANGED <<env, queue, job, names, memo, hist, out>>
+(* the job looks every declaration up in the memo of its process: a hit returns what an EARLIER job *)
+(* of this process stored under the key, a miss computes the value and stores it for later jobs      *)
+Hit(w, k) == \E e \in memo[w] : e.k = k
+Stored(w, k) == (CHOOSE e \in memo[w] : e.k = k).v
+Memo(w) == /\ pc[w] = "memo"
+           /\ LET m == job[w] IN
+                /\ names' = [names EXCEPT ![w] = [d \in Decls[m] |->
+                                IF Hit(w, Key(keymode, m, d)) THEN Stored(w, Key(keymode, m, d)) ELSE Val(m, d)]]
+                /\ memo' = [memo EXCEPT ![w] = @ \cup {[k |-> Key(keymode, m, d), v |-> Val(m, d)] :
+                                                        d \in {x \in Decls[m] : ~Hit(w, Key(keymode, m, x))}}]
+           /\ pc' = [pc EXCEPT ![w] = "trunc"]
+           /\ UNCHANGED <<env, queue, job, got, hist, out>>
 Truncate(w) == /\ pc[w] = "trunc"
                /\ out' = [out EXCEPT ![job[w]] = Partial] /\ pc' = [pc EXCEPT ![w] = "write"]
-               /\ UNCHANGED <<order, seed, queue, job, got>>
+               /\ UNCHANGED <<env, queue, job, got, names, memo, hist>>
 Write(w) == /\ pc[w] = "write"
-            /\ out' = [out EXCEPT ![job[w]] = [src |-> job[w], deps |-> got[w] \ {job[w]}]]
+            /\ out' = [out EXCEPT ![job[w]] = [src |-> job[w], deps |-> got[w] \ {job[w]}, names |-> names[w]]]
             /\ pc' = [pc EXCEPT ![w] = "idle"] /\ job' = [job EXCEPT ![w] = ""]
-            /\ UNCHANGED <<order, seed, queue, got>>
+            /\ UNCHANGED <<env, queue, got, names, memo, hist>>
 
 DoTake == \E w \in Workers : Take(w)
 DoRead == \E w \in Workers : ReadOne(w)
+DoMemo == \E w \in Workers : Memo(w)
 DoTrunc == \E w \in Workers : Truncate(w)
 DoWrite == \E w \in Workers : Write(w)
-Next == DoTake \/ DoRead \/ DoTrunc \/ DoWrite
+Next == DoTake \/ DoRead \/ DoMemo \/ DoTrunc \/ DoWrite
 Spec == Init /\ [][Next]_vars
 
 Done == queue = <<>> /\ \A w \in Workers : pc[w] = "idle"
+Stale == {m \in Mods : out[m] # Fresh(m)}
 (* whatever the schedule, order and seed: the final outputs are the fresh ones *)
-ScheduleIndependent == Done => \A m \in Mods : out[m] = Fresh(m)
+ScheduleIndependent == (Done /\ keymode = "exact") => Stale = {}
 (* no job is taken twice, no two workers write the same output *)
 NoSharedOutput == \A w1, w2 \in Workers : (w1 # w2 /\ job[w1] # "") => job[w1] # job[w2]
-
-Publish == (Dump /\ Done) => PrintT("@@" \o ToJson([order |-> order, seed |-> seed, nworkers |-> Cardinality(Workers)]))
+(* the names a job got from the memo are the ones it computes on an empty memo, whatever ran before it *)
+MemoHistoryIndependent == keymode = "exact" =>
+    \A w \in Workers : pc[w] \in {"trunc", "write"} => names[w] = FreshNames(job[w])
+(* a key determines its value: every entry is right for EVERY (module, declaration) that maps to its key *)
+MemoSound == keymode = "exact" =>
+    \A w \in Workers : \A e \in memo[w] : \A m \in Mods : \A d \in Decls[m] :
+        Key(keymode, m, d) = e.k => e.v = Val(m, d)
+(* memos are private to their process: what one process stored is never visible in another one *)
+MemoPrivate == \A w \in Workers : \A e \in memo[w] : \E i \in 1..Len(hist[w]) : \E d \in Decls[hist[w][i]] :
+                   e = [k |-> Key(keymode, hist[w][i], d), v |-> Val(hist[w][i], d)]
+(* the hazard models do make outputs stale in some history (the model can express the defect class) *)
+Publish == (Dump /\ Done) => PrintT("@@" \o ToJson([order |-> order, seed |-> seed, nworkers |-> nw, keymode |-> keymode,
+                                                     hist |-> hist, stale |-> Stale]))
 =============================================================================
